@@ -64,6 +64,23 @@ let show_out = function
   | OutNone -> "none" | OutNat n -> "nat:" ^ string_of_int (int_of_nat n)
   | OutBytes b -> "bytes:" ^ show b | OutStr s -> "str:" ^ show s | OutErr e -> "err:" ^ err_name e
 
+let parse_api tok =
+  let tag = tok.[0] in
+  let body = if String.length tok > 2 then String.sub tok 2 (String.length tok - 2) else "" in
+  let pair s = match String.split_on_char ';' s with [a; b] -> (lst a, lst b) | _ -> failwith ("bad pair " ^ s) in
+  match tag with
+  | 'S' -> let (a, b) = pair body in ASetItem (a, b)
+  | 'U' -> AUpdate (if body = "" then [] else List.map pair (String.split_on_char '|' body))
+  | 'F' -> let (a, b) = pair body in ASetDefault (a, b)
+  | 'D' -> ADelItem (lst body) | 'P' -> APop (lst body) | 'I' -> APopItem | 'C' -> AClear
+  | 'G' -> AGetItem (lst body) | 'K' -> AContains (lst body) | 'N' -> ALen
+  | _ -> failwith ("bad api op " ^ tok)
+
+let show_api_out = function
+  | AoNone -> "none" | AoStr s -> "str:" ^ show s | AoPair (k, v) -> "pair:" ^ show k ^ ";" ^ show v
+  | AoBool b -> "bool:" ^ (if b then "1" else "0") | AoNat n -> "nat:" ^ string_of_int (int_of_nat n)
+  | AoErr e -> "err:" ^ err_name e
+
 let handle toks =
   match toks with
   | ["des_block_enc"; k; b] -> "OK " ^ show (x_des_block_enc (lst k) (lst b))
@@ -127,6 +144,9 @@ let handle toks =
           | MOp o -> let (st', out) = x_step st o in (st', out :: outs))
         (x_mkState (lst k) x_default_header, []) hops in
       "OK " ^ show_header st.st_header ^ " " ^ String.concat " " (List.map show_out (List.rev outs))
+  | "api" :: ops ->
+      let (d, outs) = x_api_run [] (List.map parse_api ops) in
+      String.concat " " (("OK " ^ show_blocks d) :: List.map show_api_out outs)
   | ["p_fromhex"; s] -> res show (p_fromhex (lst s))
   | ["p_a2b"; s] -> res show (p_a2b (lst s))
   | ["p_str_of_N"; v] -> "OK " ^ show (p_str_of_N (n_of_int (int_of_string v)))
